@@ -101,6 +101,11 @@ Definition run_dep (op : string) (a : list str) : option str :=
           | D3.Ok d => lit "ok " ++ hx (D3.dep_string d) ++ sp1 ++ show_dres (D3.parse (D3.dep_string d))
           | _ => lit "err" end)
   else if op =? "aparse" then Some (show_arch (A1.parse_arch (g 0)))
+  else if op =? "alist" then
+    (* dependency.ParseArchitectures: split on single blanks, trim " \t\n\r", skip empty items *)
+    Some (lit "ok " ++ show_list (fun x => lit "( " ++ show_arch (A1.parse_arch x) ++ lit " )")
+            (filter (fun x => negb (D3.seq x []))
+               (map (CX.trim_set [" "%char; ascii_of_nat 9; ascii_of_nat 10; ascii_of_nat 13]) (GS.split " "%char (g 0)))))
   else if op =? "astring" then Some (hx (A1.arch_string (A1.mk (g 0) (g 1) (g 2))))
   else if op =? "art" then
     let x := A1.parse_arch (g 0) in let t := A1.arch_string x in
